@@ -326,3 +326,34 @@ Proof.
   split; [vm_compute; right; left; reflexivity|]. vm_compute. discriminate.
 Qed.
 Print Assumptions c16_midcall_change_refuted.
+
+(* ------------------------------------------------------------------ *)
+(* the reader the statement has in mind: load() during a write         *)
+(* ------------------------------------------------------------------ *)
+(* (theories/ReloadFile.v, which composes this model with the HotReloader model of C10:
+   c10_reload_never_sees_torn_policy, c10_reload_converges_through_atomic_write.) *)
+From Rbacx Require ReloadFile.
+
+(* the directory a run ends with - returned, raised or killed - is the one after its last
+   completed step: the trace is the whole story of the run *)
+Theorem c16_final_directory_is_last_step : forall fs path data now cands sc,
+  let r := atomic_write fs path data now cands sc in
+  r_fs r = last (map snd (r_trace r)) fs.
+Proof. exact ReloadFile.aw_final_is_last. Qed.
+Print Assumptions c16_final_directory_is_last_step.
+
+(* FilePolicySource.load() at any moment of a run of atomic_write over a complete file [fold]
+   - before it, after any completed step, in the final directory; any fault script - returns
+   what the complete old file or the complete new file parses (or fails to parse) to: never the
+   parse of a prefix *)
+Theorem c16_load_during_write_parses_whole_file :
+  forall json_loads yaml_safe_load schema_ok (cfg : config) fs fold data now cands sc,
+  not_candidate (c_path cfg) cands -> lookup (c_path cfg) fs = Some fold ->
+  let r := atomic_write fs (c_path cfg) data now cands sc in
+  forall s, s = fs \/ In s (map snd (r_trace r)) \/ s = r_fs r ->
+    load json_loads yaml_safe_load schema_ok cfg s
+      = parse_file json_loads yaml_safe_load schema_ok cfg (Some fold)
+    \/ load json_loads yaml_safe_load schema_ok cfg s
+      = parse_file json_loads yaml_safe_load schema_ok cfg (Some (mkFile data now)).
+Proof. exact ReloadFile.aw_load_whole. Qed.
+Print Assumptions c16_load_during_write_parses_whole_file.
